@@ -23,6 +23,10 @@ pub trait HistT: Clone + Sized {
     fn reset(&mut self);
     fn items(&self) -> Vec<((f64, f64), u64)>;
     fn iter_items(&self) -> Vec<((f64, f64), u64)>;
+    /// drive the iterator: take k items, clone it, drain original and clone, then poll twice more;
+    /// returns (first k, rest of the original, rest of the clone, "None after the end, twice")
+    #[allow(clippy::type_complexity)]
+    fn iter_protocol(&self, k: usize) -> (Vec<((f64, f64), u64)>, Vec<((f64, f64), u64)>, Vec<((f64, f64), u64)>, bool);
     fn widths(&self) -> Vec<f64>;
     fn centers(&self) -> Vec<f64>;
     fn normalized(&self) -> Vec<f64>;
@@ -610,6 +614,18 @@ fn do_hist<H: HistT>(line: &Value, want: &HWant, rep: &mut Report) {
                 viol(rep, "C13", H::NAME, line, "iter", format!("iteration yields {:?}; expected edges {:?} counts {:?}", items, sedges, sbins));
             }
             let exact_views = spec.get("exactviews").and_then(|x| x.as_bool()).unwrap_or(true);
+            // the iterator as a state machine: exactly LEN items, a clone taken mid-way yields the
+            // same remainder, and after the end it keeps returning None
+            for kk in 0..=H::LEN.min(3) {
+                let (first, rest, rest_clone, none_twice) = h.iter_protocol(kk);
+                rep.evaluations += 1;
+                let same = |a: &[((f64, f64), u64)], b: &[((f64, f64), u64)]| a.len() == b.len() && a.iter().zip(b).all(|(x, y)| x.1 == y.1 && x.0 .0.to_bits() == y.0 .0.to_bits() && x.0 .1.to_bits() == y.0 .1.to_bits());
+                let mut all = first.clone();
+                all.extend(rest.iter().cloned());
+                if !same(&all, &items) || !same(&rest, &rest_clone) || !none_twice || first.len() != kk.min(H::LEN) {
+                    viol(rep, "C13", H::NAME, line, "iter", format!("iterator protocol broken after taking {kk} items: {} + {} items (clone: {}), None-after-end: {}", first.len(), rest.len(), rest_clone.len(), none_twice));
+                }
+            }
             let views: [(&str, Vec<f64>, &Value, f64); 4] = [
                 ("widths", h.widths(), &spec["widths"], 0.0),
                 ("centers", h.centers(), &spec["centers"], 0.0),
